@@ -540,10 +540,11 @@ func (g *gen) elabIndex(x *Expr, e *env) (Val, error) {
 			if ks == "Iface" && i.S != "Iface" && i.GoT != nil {
 				i = Val{T: g.box(i, i.GoT), S: "Iface"}
 			}
-			dom, val, _ := g.ctx.mapComps(ks, vs)
-			in := "(and (not (= " + a.T + " 0)) (select (select " + g.stGet(e.st, dom) + " " + a.T + ") " + i.T + "))"
+			dom, val, _ := g.ctx.mapCompsT(a.GoT)
+			_ = dom
+			g.mapWF(e.st, a.GoT)
 			got := "(select (select " + g.stGet(e.st, val) + " " + a.T + ") " + i.T + ")"
-			return Val{T: "(ite " + in + " " + got + " " + g.ctx.zero(u.Elem()) + ")", S: vs, GoT: u.Elem()}, nil
+			return Val{T: got, S: vs, GoT: u.Elem()}, nil
 		case *types.Array:
 			return Val{T: "(select " + a.T + " " + i.T + ")", S: g.ctx.sortOf(u.Elem()), GoT: u.Elem()}, nil
 		case *types.Pointer:
@@ -581,7 +582,7 @@ func (g *gen) elabQuant(x *Expr, e *env) (Val, error) {
 				return Val{}, fmt.Errorf("keys() of non-map")
 			}
 			s, gt = g.ctx.sortOf(mt.Key()), mt.Key()
-			dom, _, _ := g.ctx.mapComps(s, g.ctx.sortOf(mt.Elem()))
+			dom, _, _ := g.ctx.mapCompsT(m.GoT)
 			keyGuard = "(and (not (= " + m.T + " 0)) (select (select " + g.stGet(cur.st, dom) + " " + m.T + ") " + "q_" + b.Name + "))"
 		}
 		qn := "q_" + b.Name
@@ -676,7 +677,7 @@ func (g *gen) elabTrigger(t *Expr, e *env) (string, error) {
 		if ks == "Iface" && k.S != "Iface" && k.GoT != nil {
 			k = Val{T: g.box(k, k.GoT), S: "Iface"}
 		}
-		dom, val, _ := g.ctx.mapComps(ks, g.ctx.sortOf(mt.Elem()))
+		dom, val, _ := g.ctx.mapCompsT(m.GoT)
 		comp := dom
 		if wantVal {
 			comp = val
@@ -735,8 +736,8 @@ func (g *gen) elabCall(x *Expr, e *env) (Val, error) {
 			return intVal("(s.len " + a.T + ")"), nil
 		}
 		if a.GoT != nil {
-			if mt, ok := a.GoT.Underlying().(*types.Map); ok {
-				_, _, size := g.ctx.mapComps(g.ctx.sortOf(mt.Key()), g.ctx.sortOf(mt.Elem()))
+			if _, ok := a.GoT.Underlying().(*types.Map); ok {
+				_, _, size := g.ctx.mapCompsT(a.GoT)
 				return intVal("(ite (= " + a.T + " 0) 0 (select " + g.stGet(e.st, size) + " " + a.T + "))"), nil
 			}
 			if at, ok := a.GoT.Underlying().(*types.Array); ok {
@@ -764,7 +765,7 @@ func (g *gen) elabCall(x *Expr, e *env) (Val, error) {
 		if ks == "Iface" && k.S != "Iface" && k.GoT != nil {
 			k = Val{T: g.box(k, k.GoT), S: "Iface"}
 		}
-		dom, _, _ := g.ctx.mapComps(ks, g.ctx.sortOf(mt.Elem()))
+		dom, _, _ := g.ctx.mapCompsT(m.GoT)
 		return boolVal("(and (not (= " + m.T + " 0)) (select (select " + g.stGet(e.st, dom) + " " + m.T + ") " + k.T + "))"), nil
 	case "string":
 		as, err := args()
